@@ -38,6 +38,8 @@ CONFIGS = {
     # the killed run starts from the assignments saved by an earlier --keep_tmp run (--read_assignments <prefix>); every run has its own
     # copy of the saved files, because stage locks are written next to them
     "from-saved-assignments": dict(n_chroms=2, extra=[], saved=True),
+    # one run over two experiments (--bam_list): crash points of the first experiment, between the experiments and of the second one
+    "two-experiments": dict(n_chroms=2, extra=[], experiments=("EXA", "EXB")),
 }
 
 
@@ -46,6 +48,8 @@ def make_inputs(cfg, d, seed):
                           multimappers=cfg["n_chroms"] > 1)
     pipeline.write_world(w, d)
     extra = list(cfg["extra"])
+    if cfg.get("experiments"):
+        pipeline.write_experiments(w, d, list(cfg["experiments"]), lambda e, k, r: k % 3 == 0 if e == 0 else k % 3 != 0)
     if "--read_group" in extra:
         # read group table file
         tbl = os.path.join(d, "groups.tsv")
@@ -60,7 +64,8 @@ def make_inputs(cfg, d, seed):
 
 
 def args_for(cfg, d, out, extra, saves=None):
-    a = pipeline.std_args(d, out, threads=1, annotated=cfg.get("annotated", True), extra=extra)
+    a = pipeline.std_args(d, out, threads=1, annotated=cfg.get("annotated", True), extra=extra,
+                          bam_list=os.path.join(d, "exps.list") if cfg.get("experiments") else None)
     if cfg.get("gz"):
         a.remove("--no_gzip")
     if saves:
@@ -77,7 +82,7 @@ def run(chk, scratch):
                 "directory of a -t 1 run, after .params was written; the run is killed (os._exit) immediately before it and continued with --resume (every second point with --threads 3); "
                 "quick: every distinct call site (function, operation, file kind) of 2 configurations once + random fill; thorough: every crash "
                 "point of every configuration + multi-process kills. non-trivial = distinct call sites crashed at")
-    conf_names = list(CONFIGS) if thorough else ["multi-chrom-groups-exons", "annotation-free", "force-over-previous-run", "from-saved-assignments"]
+    conf_names = list(CONFIGS) if thorough else ["multi-chrom-groups-exons", "annotation-free", "force-over-previous-run", "from-saved-assignments", "two-experiments"]
     total_points = 0
     executed = 0
     sites_seen = set()
@@ -208,12 +213,10 @@ def run(chk, scratch):
                               "%s: killed %s mutation %d (%s); --resume exits %s: %s" % (cname, "after" if after(n) else "before", n, site, r2["rc"], r2["out"][-300:].replace("\n", " | ")),
                               wit)
             else:
-                diffs = runner.compare_trees(os.path.join(clean, _prefix_dir(cfg)), os.path.join(out, _prefix_dir(cfg)))
-                if not cfg["extra"].count("--keep_tmp"):
-                    pass
+                diffs = tree_diffs(cfg, clean, out)
                 # aux/ holds temporary files (kept only for debugging with --keep_tmp); their binary content embeds process-local
                 # assignment ids and is not a final output
-                diffs = [x for x in diffs if not x[0].startswith("aux")]
+                diffs = [x for x in diffs if "aux" not in x[0].split(os.sep)]
                 for rel, why in diffs[:6]:
                     chk.violation("silent-diff:crash-site=%s:%s" % (site, file_kind(os.path.join(out, rel), out)),
                                   "%s: killed %s mutation %d (%s); --resume exits 0 but %s %s" % (cname, "after" if after(n) else "before", n, site, rel, why), wit)
@@ -287,7 +290,7 @@ def run(chk, scratch):
                         chk.violation("resume-exit-nonzero:killed-inside=%s" % site, "%s: killed at line event %d of %d (in %s); --resume exits %s: %s" %
                                       (cname, k, total, site, r2["rc"], r2["out"][-300:].replace("\n", " | ")), wit)
                     else:
-                        diffs = [x for x in runner.compare_trees(os.path.join(clean, _prefix_dir(cfg)), os.path.join(out, _prefix_dir(cfg))) if not x[0].startswith("aux")]
+                        diffs = [x for x in tree_diffs(cfg, clean, out) if "aux" not in x[0].split(os.sep)]
                         for rel, why in diffs[:6]:
                             chk.violation("silent-diff:killed-inside=%s:%s" % (site, file_kind(os.path.join(out, rel), out)),
                                           "%s: killed at line event %d of %d (in %s); --resume exits 0 but %s %s" % (cname, k, total, site, rel, why), wit)
@@ -361,3 +364,11 @@ def run(chk, scratch):
 
 def _prefix_dir(cfg):
     return pipeline.PREFIX
+
+
+def tree_diffs(cfg, a, b):
+    """differences between the final outputs of two runs: the folder of the experiment, or of every experiment of a multi-experiment run"""
+    res = []
+    for sub in (cfg.get("experiments") or [pipeline.PREFIX]):
+        res += [(os.path.join(sub, rel), why) for rel, why in runner.compare_trees(os.path.join(a, sub), os.path.join(b, sub))]
+    return res
